@@ -4,7 +4,7 @@
    every theorem holds for ANY fuel whenever the model returns a result (Some r); fuel exhaustion is None. *)
 From Coq Require Import List ZArith Bool.
 From SV Require Import C11.Paths C11.BestFirst C11.BestGrid C11.BestSpec C11.BestGraph
-  C11.BestSpecProofs C11.BestOrder C11.BestProofs1 C11.BestProofs2 C11.BestProofsInst C11.BestProofs4 C11.BestProofs5.
+  C11.BestSpecProofs C11.BestOrder C11.BestHyps C11.BestProofs1 C11.BestProofs2 C11.BestProofsInst C11.BestProofs4 C11.BestProofs5 C11.BestZr2 C11.BestGridProofs C11.BestProofs6.
 Import ListNotations.
 Open Scope Z_scope.
 
@@ -97,6 +97,42 @@ Theorem C11_bestfirst_optimal_generic :
 Proof. exact (@astar_c_optimal). Qed.
 Print Assumptions C11_bestfirst_optimal_generic.
 
+(* (4) The grid.  Z[sqrt 2] with the exact order used by the grid model is a totally ordered commutative monoid
+   (needs: sqrt 2 irrational, positives closed under +), the built-in heuristics are consistent on the exact grid
+   graph when all terrain costs are >= 1 (costs_ge1, boolean): manhattan with 4 directions, octile and chebyshev
+   with 4 and 8 directions (heur_ok, boolean; "auto" resolves to manhattan / octile), hence astar_grid with
+   weight 1 returns an objective <= the weight of every walk from start to goal in the grid graph, and INFEASIBLE
+   means the goal is unreachable.  (euclidean is not representable in Z[sqrt 2]: harness-only.) *)
+Theorem C11_zr2_ordered : ordered_costs zr_zero zr_add zr_ltb.
+Proof. exact zr2_ordered_costs. Qed.
+Print Assumptions C11_zr2_ordered.
+
+Theorem C11_grid_heuristics_consistent : forall g directions blocked cost_map goal hn x,
+  costs_ge1 cost_map = true -> heur_ok directions hn = true ->
+  forall u v w, In (v, w) (zr_grid_nbrs g directions blocked cost_map u) ->
+    zr_heur hn goal u = Some x ->
+    exists y, zr_heur hn goal v = Some y /\ cle zr_ltb x (zr_add w y).
+Proof. exact grid_consistent. Qed.
+Print Assumptions C11_grid_heuristics_consistent.
+
+Theorem C11_astar_grid_optimal : forall g start goal directions h blocked cost_map max_iter r,
+  costs_ge1 cost_map = true -> heur_ok directions (resolve_h directions h) = true ->
+  astar_grid_zr g start goal directions h blocked cost_map 1 max_iter = Some r ->
+  opt_res zr_zero zr_add zr_ltb (zr_grid_nbrs g directions blocked cost_map) (cell_eqb goal) None start r.
+Proof. exact astar_grid_optimal. Qed.
+Print Assumptions C11_astar_grid_optimal.
+
+(* (5) Totality of the graph models: with the built-in fuel (2 + number of edges) dijkstra / astar always return a
+   result - the loop terminates, g[current] is always bound, reconstruct_path always reaches the root - so the
+   theorems above are never vacuous for graph inputs.  (For the grid model the same is checked on every generated
+   case by the correspondence lemmas, not proved.) *)
+Theorem C11_best_total :
+  (forall adj start goals max_iter max_cost, exists r, dijkstra adj start goals max_iter max_cost = Some r)
+  /\ (forall adj start goals htab weight max_iter max_cost,
+        exists r, astar adj start goals htab weight max_iter max_cost = Some r).
+Proof. exact (conj dijkstra_total astar_total). Qed.
+Print Assumptions C11_best_total.
+
 (* ---- non-vacuity ---- *)
 Definition diamond : adjacency := [[(1%nat, 4); (2%nat, 1)]; [(3%nat, 1)]; [(1%nat, 2); (3%nat, 5)]; []].
 
@@ -120,4 +156,20 @@ Proof. vm_compute. reflexivity. Qed.
 Example C11_best_nonvacuous_inputs :
   nonneg_adj diamond = true /\ consistent_adj diamond [3%nat] [3; 1; 2; 0] = true
   /\ consistent_adj diamond [3%nat] [0; 9; 0; 0] = false.
+Proof. vm_compute. auto. Qed.
+
+Example C11_best_nonvacuous_grid_inputs :
+  costs_ge1 [(2, 3); (0, 1)] = true /\ heur_ok 8 (resolve_h 8 Hauto) = true /\ heur_ok 4 (resolve_h 4 Hauto) = true
+  /\ heur_ok 8 Hmanhattan = false.
+Proof. vm_compute. auto. Qed.
+
+(* why heur_ok excludes manhattan with 8 directions (it overestimates diagonal moves): the model - and the code, see
+   corpus/C11/best_note_manhattan8.json - returns 3 + sqrt 2 with status OPTIMAL although 1 + 2 sqrt 2 is possible *)
+Example C11_best_grid_manhattan8_witness :
+  let g := [[0; 0; 0]; [0; 1; 0]; [1; 0; 0]; [0; 0; 0]] in
+  obs_of (astar_grid_zr g (0, 0) (3, 2) 8 Hmanhattan [1] [] 1 1000000)
+    = Some (OPTIMAL, Some [(0, 0); (0, 1); (1, 2); (2, 2); (3, 2)], Some (3, 1))
+  /\ path_check cell_eqb zr_add (zr_grid_nbrs g 8 [1] []) zr_zero (0, 0) (cell_eqb (3, 2))
+       [(0, 0); (1, 0); (2, 1); (3, 2)] (zr_eqb (1, 2)) = true
+  /\ zr_ltb (1, 2) (3, 1) = true.
 Proof. vm_compute. auto. Qed.
